@@ -7,6 +7,9 @@ package typechecker
 /*@
 // a typechecker keeps working on the same module
 immutable typechecker.Typechecker.Module typechecker.Typechecker.panicMode ast.Module.Ast
+// the checker annotates expressions but never changes their operator or operands
+immutable ast.UnaryExpr.Operator ast.UnaryExpr.Rhs ast.BinaryExpr.Operator ast.BinaryExpr.Lhs ast.BinaryExpr.Rhs
+immutable ast.TernaryExpr.Operator ast.TernaryExpr.Lhs ast.TernaryExpr.Mid ast.TernaryExpr.Rhs
 
 // type classes: 1 Zahl, 2 Kommazahl, 3 Byte, 4 Wahrheitswert, 5 Buchstabe, 6 Text, 0 anything else
 spec clsOf(ty ddptypes.Type) int :=
